@@ -1,6 +1,7 @@
 package main
 
 import (
+	"os"
 	"encoding/binary"
 	"fmt"
 	"math/rand"
@@ -28,6 +29,8 @@ type c12cfg struct {
 	verify     bool
 	// 'signed' selection with no query-token issuer configured (the default): the issuer is then not constrained
 	noQueryIssuer bool
+	// a client template that sets every setting the gateway must control to something else
+	hostileDefaults bool
 }
 
 // tunnelReplay presents token and host on the websocket transport and returns
@@ -117,6 +120,8 @@ func streamC12(env *runEnv) {
 		{mode: "any", hosts: []string{addrs[0]}, verify: true},
 		{mode: "signed", hosts: []string{addrs[0], addrs[1]}, verify: true},
 		{mode: "signed", hosts: []string{addrs[0], addrs[1]}, verify: true, noQueryIssuer: true},
+		{mode: "roundrobin", hosts: []string{addrs[0]}, verify: true, hostileDefaults: true},
+		{mode: "unsigned", hosts: []string{addrs[0], addrs[1]}, split: true, verify: true, hostileDefaults: true},
 		{mode: "roundrobin", hosts: []string{addrs[1]}, template: "no-placeholder", verify: true},
 		{mode: "roundrobin", hosts: []string{addrs[1]}, noUsername: true, split: true, verify: true},
 	}
@@ -133,6 +138,13 @@ func streamC12(env *runEnv) {
 		gc := gwConfig{authSet: true, auth: []string{"openid"}, tlsDisable: true, hosts: cf.hosts, hostSelection: cf.mode,
 			providerURL: idp.srv.URL, clientID: idp.clientID, paaSignKey: sp(c12SignKey), queryKey: c12QueryKey, queryIssuer: map[bool]string{false: "rdpgw-query", true: ""}[cf.noQueryIssuer],
 			splitDomain: cf.split, userTemplate: cf.template, noUsername: cf.noUsername, verifyIP: bp(cf.verify), gatewayAddr: "gw.example.test:%PORT%"}
+		if cf.hostileDefaults {
+			mkdirAll(dir)
+			gc.defaults = filepath.Join(dir, "defaults.rdp")
+			os.WriteFile(gc.defaults, []byte("gatewayusagemethod:i:2\r\ngatewayprofileusagemethod:i:0\r\ngatewaycredentialssource:i:0\r\n"+
+				"full address:s:evil.example:3389\r\ngatewayhostname:s:evil-gw.example\r\ngatewayaccesstoken:s:EVIL\r\n"+
+				"networkautodetect:i:0\r\naudiomode:i:2\r\n"), 0o600) // (user name and domain are set by the handler only when it has one)
+		}
 		yaml, ev := gc.render("file")
 		g, ok := startGateway(dir, yaml, ev, false)
 		if !ok {
